@@ -75,7 +75,7 @@ def _str_constructor_loader(tp: type) -> Loader:
     def str_constructor_loader(data):
         try:
             return tp(data)
-        except (TypeError, AttributeError):
+        except (TypeError, AttributeError, IndexError):
             raise TypeLoadError(str, data)
         except ValueError as e:
             raise ValueLoadError(str(e), data)
